@@ -288,3 +288,49 @@ def check_shared_class_containers(ctx, rep, rule: str, only: Callable = None) ->
                         f"{cname}.{fn.name} writes into `{attr}`, a container created in the class body: it is one object for every {cname} (and subclass) of the process, so what a "
                         f"model with one configuration stores there is served to a model with another (same key, other taxa / grid / data)")
     return n
+
+
+def mutable_default_mutations(fn: ast.FunctionDef):
+    """[(parameter, statement)]: a parameter whose default is a mutable literal ([] / {} / set()) and that the function appends to or stores into: the default object is created once,
+    when the function is defined, so what one call leaves in it is still there in the next call"""
+    out = []
+    args = fn.args.args + fn.args.kwonlyargs
+    defaults = [None] * (len(fn.args.args) - len(fn.args.defaults)) + list(fn.args.defaults) + list(fn.args.kw_defaults)
+    mutable = {a.arg for a, d in zip(args, defaults) if d is not None and (isinstance(d, (ast.List, ast.Dict, ast.Set))
+               or (isinstance(d, ast.Call) and isinstance(d.func, ast.Name) and d.func.id in ('list', 'dict', 'set')))}
+    if not mutable:
+        return out
+    rebound = {t.id for st in ast.walk(fn) if isinstance(st, ast.Assign) for t in st.targets if isinstance(t, ast.Name)}
+    for st in ast.walk(fn):
+        if isinstance(st, ast.Expr) and isinstance(st.value, ast.Call) and isinstance(st.value.func, ast.Attribute) and isinstance(st.value.func.value, ast.Name) \
+                and st.value.func.value.id in mutable - rebound and st.value.func.attr in ('append', 'extend', 'insert', 'update', 'add', 'setdefault', 'pop', 'clear'):
+            out.append((st.value.func.value.id, st))
+        tgts = st.targets if isinstance(st, ast.Assign) else ([st.target] if isinstance(st, ast.AugAssign) else [])
+        for t in tgts:
+            if isinstance(t, ast.Subscript) and isinstance(t.value, ast.Name) and t.value.id in mutable - rebound:
+                out.append((t.value.id, st))
+    return out
+
+
+def check_mutable_defaults(ctx, rep, rule: str, only: Callable = None) -> int:
+    t = ast.parse("def k(p, scalers: list = []):\n    scalers.append(p)\n    return scalers\n").body[0]
+    if len(mutable_default_mutations(t)) != 1:
+        from .loader import AnalysisError
+        raise AnalysisError('mutable-default self-check failed')
+    n = 0
+    for m in ctx.prog.modules.values():
+        if only is not None and not only(m):
+            continue
+        for fn in ast.walk(m.tree):
+            if not isinstance(fn, ast.FunctionDef):
+                continue
+            n += 1
+            seen = set()
+            for pname, st in mutable_default_mutations(fn):
+                if pname in seen:
+                    continue
+                seen.add(pname)
+                rep.bad(rule, f"{m.name.replace('torchtree.', '')}::{fn.name}::default-of-{pname}-is-shared-by-every-call", where(m, st), {'statement': norm_text(st)[:60]},
+                        f"{fn.name}: the parameter `{pname}` defaults to a mutable object created once at definition time and the function writes into it (`{norm_text(st)[:50]}`): a call "
+                        f"that relies on the default starts with what the previous calls left there")
+    return n
